@@ -382,12 +382,23 @@ fn gen_hist(r: &mut Rng, allow_enable_unseen: bool) -> (Hist, GenInfo) {
 
 // ---------------------------------------------------------------- judging
 
-#[derive(Default)]
 struct Acc {
     evals: u64,
     counters: BTreeMap<String, u64>,
     distinct: HashSet<u64>,
     samples: Vec<J>,
+    record_distinct: bool,
+}
+impl Default for Acc {
+    fn default() -> Self {
+        Acc {
+            evals: 0,
+            counters: BTreeMap::new(),
+            distinct: HashSet::new(),
+            samples: vec![],
+            record_distinct: true,
+        }
+    }
 }
 impl Acc {
     fn c(&mut self, k: &str, n: u64) {
@@ -505,7 +516,11 @@ fn judge(run: &Run, acc: &mut Acc, h: &Hist, ex: &HExec, witness: Option<&str>) 
         );
     }
     if out.cache_hits > 0 && batches > 0 && h.ops.len() >= 5 {
-        acc.distinct.insert(hh);
+        if acc.record_distinct {
+            acc.distinct.insert(hh);
+        } else {
+            acc.c("distinct_cases_not_recorded_beyond_per_shard_cap", 1);
+        }
     }
     !bad
 }
@@ -576,7 +591,7 @@ pub fn main() {
          fresh DataLoader with NoCache, HashMapCache or LruCache(1-4), max_batch_size 1/2/3/1000, loader optionally \
          omitting a key, timer and loader gates auto-opened or opened FIFO; judged against the reference cache model by \
          value provenance (batch ids / feed ids). A history is non-trivial when it has >=5 ops, at least one cache hit \
-         and at least one loader batch; distinct by hash of (configuration, ops)",
+         and at least one loader batch; distinct by hash of (configuration, ops); at most 100000 are recorded per shard, so the count is a lower bound",
     );
     run.assume("feed_one/feed_many insert regardless of the enable flags (documented as 'Feed some data into the cache'); get_cached_values returns the stored contents regardless of the enable flags");
     run.assume("LRU: hits refresh recency in the order the keys were passed, feed_many inserts in iterator order, the order of one batch's inserts is not fixed (every order accepted), get_cached_values does not touch recency");
@@ -625,7 +640,8 @@ pub fn main() {
     }
 
     let enable_unseen = run.feature("enable_cache_before_first_use");
-    let n = run.scale(12_000, 500_000);
+    let n = run.scale(12_000, 1_500_000);
+    let guard = std::time::Instant::now() + Duration::from_secs(run.scale(45, 480));
     std::thread::scope(|s| {
         for shard in 0..16u64 {
             let run = &run;
@@ -633,7 +649,12 @@ pub fn main() {
                 let mut acc = Acc::default();
                 let mut r = Rng::new(rng::mix(&[run.seed, 29, shard]));
                 let mut reported = 0;
+                let mut recorded = 0usize;
                 for it in 0..n {
+                    if it % 512 == 0 && std::time::Instant::now() > guard {
+                        acc.c("shards_stopped_at_wall_clock_guard", 1);
+                        break;
+                    }
                     // the feature is exercised in one history out of eight, so a defect behind it
                     // cannot mask the rest of the workload
                     let allow = enable_unseen && it % 8 == 0;
@@ -659,8 +680,13 @@ pub fn main() {
                     if !ok {
                         reported += 1;
                     }
-                    if acc.distinct.len() > 100_000 {
+                    // at most 100000 distinct cases are recorded per shard (the count is a lower bound)
+                    if acc.distinct.len() >= 20_000 {
+                        recorded += acc.distinct.len();
                         acc.flush(run);
+                    }
+                    if recorded >= 100_000 {
+                        acc.record_distinct = false;
                     }
                 }
                 acc.c("histories_with_violation", reported);
